@@ -96,6 +96,8 @@ structure Completed (x x1 : Ctx) : Prop where
   rep : x1.rep = x.rep
   freq : x1.freq = x.freq
   bstate : x1.bstate = .completed
+  provs : x1.provs = x.provs
+  cap : x1.cap = x.cap
 
 set_option maxHeartbeats 1600000 in
 /-- second half of the expiry of a batch: every invariant holds again -/
@@ -242,7 +244,7 @@ theorem expirePending_spec (s : State) (c : CtxId) (x : Ctx) (h : Inv s) (hx : M
       exact ⟨this.1, this.2.1⟩
     have hnd := nodup_sortReqIds _ (List.Nodup.sublist (List.filter_sublist (p := fun r => decide (r.ctx = c ∧ r.batch = x.batch))) h.x.activeNodup)
     obtain ⟨i1, i2, i3⟩ := expireFold_inv x c _ s h hx hids hnd hnp
-    refine ⟨i1, i2, ?_, ⟨rfl, rfl, rfl, rfl, rfl, rfl, rfl, rfl⟩, rfl, rfl, rfl⟩
+    refine ⟨i1, i2, ?_, ⟨rfl, rfl, rfl, rfl, rfl, rfl, rfl, rfl, rfl, rfl⟩, rfl, rfl, rfl⟩
     intro r hr hrc
     obtain ⟨hr1, hr2⟩ := (i3 r).mp hr
     apply hr2
@@ -261,7 +263,7 @@ theorem expirePending_spec (s : State) (c : CtxId) (x : Ctx) (h : Inv s) (hx : M
       cases hh : x.bstate with
       | completed => rfl
       | running => rw [hh] at hb; simp at hb
-    refine ⟨h, ⟨rfl, rfl, rfl, rfl, rfl, rfl, rfl, rfl, rfl, rfl, rfl, rfl⟩, ?_, ⟨rfl, rfl, rfl, rfl, rfl, rfl, rfl, hbc⟩, rfl, rfl, rfl⟩
+    refine ⟨h, ⟨rfl, rfl, rfl, rfl, rfl, rfl, rfl, rfl, rfl, rfl, rfl, rfl⟩, ?_, ⟨rfl, rfl, rfl, rfl, rfl, rfl, rfl, hbc, rfl, rfl⟩, rfl, rfl, rfl⟩
     intro r hr hrc
     obtain ⟨y, hy, hyb⟩ := h.x.activeRunning r hr
     rw [hrc, hx] at hy; injection hy with hy; subst hy
